@@ -127,7 +127,7 @@ func paddingObservation(run *core.Run, rng *rand.Rand) {
 }
 
 func TestCheck(t *testing.T) {
-	run := core.Start(t, "C17", "exploration",
+	run := core.Start(t, "C17", "fault_enumeration",
 		"real NewHandshake/EncryptedConn over in-memory links with seeded segmentation (byte-by-byte .. whole) and back-pressure. "+
 			"distinct_nontrivial = distinct cases in which the real code processed frames and an oracle compared the outcome: "+
 			"stream cases (write-size list, read-buffer list, segmentation, capacity per direction) with >0 bytes compared and equal; "+
